@@ -453,6 +453,8 @@ def transform_signatures(u: Unit, transformed: bool):
                 and dotted(e.left) in ("self._transform_in", "self._transform_out") \
                 and isinstance(e.comparators[0], ast.Constant) and e.comparators[0].value is None:
             return isinstance(e.ops[0], (ast.IsNot, ast.NotEq))
+        if isinstance(e, ast.Call) and call_name(e) == "_is_hdf5_none":
+            return False        # premise of the rule: the tensor asked for is stored
         return ae.UNKNOWN
     feas = ae.feasible_edges(g, lookup)
     sigs = []
@@ -482,8 +484,12 @@ def transform_signatures(u: Unit, transformed: bool):
             if isinstance(x, ast.Call) and (dotted(x.func) or "").endswith("create_delta") \
                     and x.args:
                 return ti.evaluate(x.args[0], atom)      # rank-3 -> rank-4 expansion of T
-            if isinstance(x, ast.Subscript) and dotted(x.value) == "self._mpo_tensors":
+            if isinstance(x, ast.Subscript) and (dotted(x.value) or "").startswith("self._mpo_tensors"):
                 return ti.Val.atom("T", 4)
+            if isinstance(x, ast.Call) and isinstance(x.func, ast.Attribute) and x.func.attr == "reshape" \
+                    and isinstance(x.func.value, ast.Subscript) \
+                    and (dotted(x.func.value.value) or "").startswith("self._mpo_tensors"):
+                return ti.Val.atom("T", 4)        # the flat data set given its stored shape
             if isinstance(x, ast.Call) and call_name(x) == "_get_data_and_shape":
                 return ti.Val.atom("T", 4)
             return None
